@@ -531,46 +531,123 @@ func (c *c15) panicConfined() {
 }
 
 func (c *c15) exitCode() {
+	// Every error of a Generator.Generate* call made by the command must end in log.Fatal*/os.Exit(!=0):
+	// either tested and fatal in the calling function, or returned by it — then the same holds for
+	// every call of that function (worklist up to main), whatever helpers the command is split into.
 	p := c.s.Pkgs[modPath+"/cmd/goag"]
 	info := p.TypesInfo
-	n := 0
+	decls := map[*types.Func]*ast.FuncDecl{}
 	for _, f := range p.Syntax {
 		for _, d := range f.Decls {
-			fd, ok := d.(*ast.FuncDecl)
-			if !ok || fd.Name.Name != "main" || fd.Body == nil {
-				continue
+			if fd, ok := d.(*ast.FuncDecl); ok && fd.Body != nil {
+				if fo, ok := info.Defs[fd.Name].(*types.Func); ok {
+					decls[fo] = fd
+				}
 			}
-			// every variable assigned from a Generate* call must be tested and lead to a fatal exit
+		}
+	}
+	isSource := func(call *ast.CallExpr, sources map[*types.Func]bool) (string, bool) {
+		nm := calleeName(info, call)
+		if strings.Contains(nm, "Generator.Generate") {
+			return nm[strings.LastIndex(nm, ".")+1:], true
+		}
+		if fo, ok := typeutil.Callee(info, call).(*types.Func); ok && sources[fo] {
+			return fo.Name(), true
+		}
+		return "", false
+	}
+	n := 0
+	sources := map[*types.Func]bool{}
+	judged := map[*ast.CallExpr]bool{}
+	for changed := true; changed; {
+		changed = false
+		for fo, fd := range decls {
+			// calls in return position make fd a source itself
+			returned := map[types.Object]bool{}
 			ast.Inspect(fd.Body, func(nd ast.Node) bool {
-				as, ok := nd.(*ast.AssignStmt)
-				if !ok || len(as.Rhs) != 1 {
+				if _, isLit := nd.(*ast.FuncLit); isLit {
+					return false
+				}
+				ret, ok := nd.(*ast.ReturnStmt)
+				if !ok || len(ret.Results) == 0 {
 					return true
 				}
-				call, ok := as.Rhs[0].(*ast.CallExpr)
-				if !ok {
-					return true
+				last := ret.Results[len(ret.Results)-1]
+				if o := identObj(info, last); o != nil {
+					returned[o] = true
 				}
-				nm := calleeName(info, call)
-				if !strings.Contains(nm, "Generator.Generate") {
-					return true
-				}
-				n++
-				eo := identObj(info, as.Lhs[len(as.Lhs)-1])
-				good := false
-				ast.Inspect(fd.Body, func(m ast.Node) bool {
-					ifs, ok := m.(*ast.IfStmt)
-					if ok && condTestsErrG(info, ifs.Cond, eo) && terminatesWithError(info, ifs.Body.List) {
-						good = true
+				if call, ok := ast.Unparen(last).(*ast.CallExpr); ok {
+					if short, ok := isSource(call, sources); ok {
+						if !judged[call] {
+							judged[call] = true
+							if strings.HasPrefix(short, "Generate") {
+								n++
+							}
+							if fd.Name.Name == "main" {
+								c.r.Violation("C15/exit-code", "cmd/goag."+fd.Name.Name+":"+short, c.s.pos(call.Pos()), "main returns without turning the error of "+short+" into a non-zero exit")
+							} else {
+								c.r.OK("C15/exit-code", "cmd/goag."+fd.Name.Name+":"+short, c.s.pos(call.Pos()), "error returned to the caller (judged there)")
+							}
+						}
+						if !sources[fo] && fd.Name.Name != "main" {
+							sources[fo], changed = true, true
+						}
 					}
-					return true
-				})
-				short := nm[strings.LastIndex(nm, ".")+1:]
-				c.r.Check(good, "C15/exit-code", "cmd/goag.main:"+short, c.s.pos(call.Pos()), "the error of "+short+" does not lead to log.Fatal*/os.Exit(!=0): the command exits 0 on failure")
+				}
+				return true
+			})
+			ast.Inspect(fd.Body, func(nd ast.Node) bool {
+				switch x := nd.(type) {
+				case *ast.AssignStmt:
+					if len(x.Rhs) != 1 {
+						return true
+					}
+					call, ok := x.Rhs[0].(*ast.CallExpr)
+					if !ok {
+						return true
+					}
+					short, ok := isSource(call, sources)
+					if !ok {
+						return true
+					}
+					eo := identObj(info, x.Lhs[len(x.Lhs)-1])
+					good := false
+					ast.Inspect(fd.Body, func(m ast.Node) bool {
+						ifs, ok := m.(*ast.IfStmt)
+						if ok && condTestsErrG(info, ifs.Cond, eo) && terminatesWithError(info, ifs.Body.List) {
+							good = true
+						}
+						return true
+					})
+					if !good && eo != nil && returned[eo] && fd.Name.Name != "main" {
+						good = true
+						if !sources[fo] {
+							sources[fo], changed = true, true
+						}
+					}
+					if !judged[call] || !good {
+						if !judged[call] && strings.HasPrefix(short, "Generate") {
+							n++
+						}
+						judged[call] = true
+						c.r.Check(good, "C15/exit-code", "cmd/goag."+fd.Name.Name+":"+short, c.s.pos(call.Pos()), "the error of "+short+" does not lead to log.Fatal*/os.Exit(!=0): the command exits 0 on failure")
+					}
+				case *ast.ExprStmt:
+					if call, ok := x.X.(*ast.CallExpr); ok {
+						if short, ok := isSource(call, sources); ok && !judged[call] {
+							judged[call] = true
+							if strings.HasPrefix(short, "Generate") {
+								n++
+							}
+							c.r.Violation("C15/exit-code", "cmd/goag."+fd.Name.Name+":"+short, c.s.pos(call.Pos()), "the error of "+short+" is discarded: the command exits 0 on failure")
+						}
+					}
+				}
 				return true
 			})
 		}
 	}
-	c.r.FloorMin("Generate* call sites in main", n, 2)
+	c.r.FloorMin("Generate* call sites in the command", n, 2)
 }
 
 // ---------------------------------------------------------------------------
